@@ -5,8 +5,11 @@
 import os
 import sys
 
-sys.path.insert(0, '/repo/tests')
-sys.path.insert(0, '/repo')
+# VERIF_REPO lets the framework be pointed at a scratch copy (used only for experiments with
+# seeded/benign changes); every registered command analyses /repo itself.
+REPO = os.environ.get('VERIF_REPO', '/repo')
+sys.path.insert(0, REPO + '/tests')
+sys.path.insert(0, REPO)
 
 import django
 from django.conf import settings
